@@ -32,6 +32,8 @@ pub assume_specification [char::is_ascii_alphanumeric] (c: &char) -> (r: bool)
     ensures r == is_alnum(*c);
 pub assume_specification [char::is_ascii_digit] (c: &char) -> (r: bool)
     ensures r == is_digit(*c);
+pub assume_specification [char::to_ascii_lowercase] (c: &char) -> (r: char)
+    ensures r == lower(*c);
 
 pub assume_specification [u8::is_ascii] (c: &u8) -> (r: bool)
     ensures r == (*c < 128u8);
@@ -431,6 +433,16 @@ fn shim_find_char(s: &str, c: char) -> (r: Option<usize>)
 fn shim_split_comma<'a>(s: &'a str) -> (r: Vec<&'a str>)
     ensures r@.len() == split_commas(s@).len(), forall|i: int| 0 <= i < r@.len() ==> (#[trigger] r@[i])@ == split_commas(s@)[i]
 { s.split(',').collect() }
+/// str::split_terminator(','): as split(','), except that an empty trailing piece is skipped
+pub open spec fn split_term_commas(cs: Seq<char>) -> Seq<Seq<char>> {
+    let p = split_commas(cs);
+    if p.len() > 0 && p.last().len() == 0 { p.drop_last() } else { p }
+}
+// shim D6.split_terminator_comma
+#[verifier::external_body]
+fn shim_split_terminator_comma<'a>(s: &'a str) -> (r: Vec<&'a str>)
+    ensures r@.len() == split_term_commas(s@).len(), forall|i: int| 0 <= i < r@.len() ==> (#[trigger] r@[i])@ == split_term_commas(s@)[i]
+{ s.split_terminator(',').collect() }
 // shim D8.format3
 #[verifier::external_body]
 fn shim_concat3(a: &str, b: &str, c: &str) -> (r: String)
